@@ -79,6 +79,11 @@ def gen_case(rng, tier, idx):
         cfg["simulation"]["sessions"].append({"sessionName": i, "iterationSteps": st, "withOrderPlacement": pl,
                                               "withOrderExecution": ex, "withPrint": False,
                                               "maxNormalOrders": rng.choice([1, 2, 3]), "maxHighFrequencyOrders": 1})
+    if rng.random() < 0.12:
+        cfg["simulation"]["sessions"].insert(rng.randrange(ns + 1), {
+            "sessionName": "empty", "iterationSteps": 0, "withOrderPlacement": True, "withOrderExecution": True,
+            "withPrint": False})
+        ns += 1
     if not any(s["withOrderPlacement"] and s["withOrderExecution"] for s in cfg["simulation"]["sessions"]):
         cfg["simulation"]["sessions"][0]["withOrderPlacement"] = cfg["simulation"]["sessions"][0]["withOrderExecution"] = True
     for j in range(rng.randint(1, 6)):
